@@ -355,8 +355,16 @@ def g_library_recursion(R, tier):
             repr(sites), backend="structural")
 
 
-GROUPS = {"depth": g_depth, "library_recursion": g_library_recursion, "size_guards": g_size_guards, "guards": g_guards, "recursion": g_recursion, "sizes": g_sizes, "canary": c13.g_canary}
-NO_FRAME_GROUPS = ("depth", "guards", "sizes", "size_guards")
+def g_witness(R, tier):
+    from suites import c06
+    c06.native_finding(R, "expr_unparse.unparse_Constant+ast.unparse/W1-integer-literals-of-any-size",
+                       "an int constant is written with repr(): above the interpreter's int-to-decimal-string limit (4300 digits) that raises ValueError, although "
+                       "CPython compiles the same value written as a hexadecimal literal",
+                       "x = 0x" + "f" * 4000 + "\nr = x % 1000\n")
+
+
+GROUPS = {"witness": g_witness, "depth": g_depth, "library_recursion": g_library_recursion, "size_guards": g_size_guards, "guards": g_guards, "recursion": g_recursion, "sizes": g_sizes, "canary": c13.g_canary}
+NO_FRAME_GROUPS = ("depth", "guards", "sizes", "size_guards", "witness")
 
 
 def replay_size(rp):
